@@ -13,6 +13,30 @@ def RT (F : NumFmt) (d : Nat) (i i' : Instruction) : Prop :=
   ∀ rest, parseInstructionAt (d + 1) (toks F i ++ .newLine :: rest) = .ok i' (.newLine :: rest) ∧
     parseInstructionAt (d + 1) (.newLine :: (toks F i ++ .newLine :: rest)) = .ok i' (.newLine :: rest)
 
+/-- what follows a top-level instruction's newline: nothing, or the first token of the next instruction — in
+particular NOT an indentation (which would continue the block of a definition) -/
+def restOk : List Token → Bool
+  | [] => true
+  | t :: _ => startTok t
+
+/-- the round trip of a top-level instruction (definitions: their block must not be continued by `rest`) -/
+def RTtop (F : NumFmt) (d : Nat) (i i' : Instruction) : Prop :=
+  ∀ rest, restOk rest = true →
+    parseInstructionAt (d + 1) (toks F i ++ .newLine :: rest) = .ok i' (.newLine :: rest) ∧
+    parseInstructionAt (d + 1) (.newLine :: (toks F i ++ .newLine :: rest)) = .ok i' (.newLine :: rest)
+
+theorem RT.top {F : NumFmt} {d : Nat} {i i' : Instruction} (h : RT F d i i') : RTtop F d i i' :=
+  fun rest _ => h rest
+
+theorem rttop_of_command (F : NumFmt) (d : Nat) (i i' : Instruction) (c : Command) (payload : List Token)
+    (ht : toks F i = cmd c :: payload)
+    (h : ∀ rest, restOk rest = true →
+      parseCommand (parseExpressionAt (d + 1)) (parseInstructionAt d) c (payload ++ .newLine :: rest)
+        = .ok i' (.newLine :: rest)) : RTtop F d i i' := by
+  intro rest hr
+  simp only [parseInstructionAt, ht, cmd, List.cons_append]
+  exact ⟨body_command _ _ _ _ _ _ (h rest hr), body_command_nl _ _ _ _ _ _ (h rest hr)⟩
+
 theorem rt_of_command (F : NumFmt) (d : Nat) (i i' : Instruction) (c : Command) (payload : List Token)
     (ht : toks F i = cmd c :: payload)
     (h : ∀ rest, parseCommand (parseExpressionAt (d + 1)) (parseInstructionAt d) c (payload ++ .newLine :: rest)
